@@ -442,6 +442,16 @@ class NumpyBackend(BackendBase[NumericArray]):
             """Special sympy printer returning numpy arrays."""
 
             def _print_ImmutableDenseNDimArray(self, arr):
+                if arr.rank() > 1:
+                    # broadcast all components together (not row by row) and restore
+                    # the tensorial shape afterwards
+                    entries = (arr[idx] for idx in np.ndindex(*arr.shape))
+                    arrays = ", ".join(f"asarray({self._print(e)})" for e in entries)
+                    shape = tuple(int(n) for n in arr.shape)
+                    return (
+                        f"(lambda _a: reshape(_a, {shape} + _a.shape[1:]))"
+                        f"(array(broadcast_arrays({arrays})))"
+                    )
                 arrays = ", ".join(f"asarray({self._print(expr)})" for expr in arr)
                 return f"array(broadcast_arrays({arrays}))"
 
